@@ -395,6 +395,8 @@ class NPProxy:
         return _np.eye(n, M, k, **({} if dtype is None else {'dtype': dtype}))
 
     def zeros_like(self, a, dtype=None, **k):
+        if dtype in (int, _np.int64, _np.int_, bool):
+            return _np.zeros(_np.shape(a), dtype=dtype)
         if (SYMBOLIC[0] and dtype in _FLOATY and _np.asarray(a).dtype.kind in 'fcO') or has_sym(a):
             r = _np.empty(_np.shape(a), dtype=object)
             r.fill(0.0)
@@ -402,6 +404,8 @@ class NPProxy:
         return _np.zeros_like(a, **({} if dtype is None else {'dtype': dtype}))
 
     def ones_like(self, a, dtype=None, **k):
+        if dtype in (int, _np.int64, _np.int_, bool):
+            return _np.ones(_np.shape(a), dtype=dtype)
         if (SYMBOLIC[0] and dtype in _FLOATY and _np.asarray(a).dtype.kind in 'fcO') or has_sym(a):
             r = _np.empty(_np.shape(a), dtype=object)
             r.fill(1.0)
